@@ -206,10 +206,41 @@ def replay(inp):
     if inp.get("kind") == "order":
         d = order_failure(inp["phases"], perms=tuple(range(1, 9)))
         return {"fails": d is not None, "detail": d}
+    if inp.get("kind") == "dagorder":
+        d = dag_order_failure(inp["phases"])
+        return {"fails": d is not None, "detail": d}
     if inp.get("kind") == "order2":
         d = order2_failure(inp["phases_a"], inp["phases_b"])
         return {"fails": d is not None, "detail": d}
     return {"error": "unknown input kind"}
+
+
+def infer_via_dag(phases_desc, order):
+    """the public entry point infer_kinds on a DAGCode whose phases dict is filled in the given order"""
+    phases = build(phases_desc)
+    names = ["ph%d" % i for i in range(len(phases))]
+    d = {}
+    for i in order:
+        d[names[i]] = lang.ExecutionPhase(name=names[i], next_phase=names[i], statements=phases[i])
+    dag = lang.DAGCode(phases=d, initial_phase=names[0])
+    try:
+        tbl = D.infer_kinds(dag, function_registry=registry())
+    except Exception as ex:
+        return ("fail", type(ex).__name__)
+    per = {pn: dict(sorted((k, repr(v)) for k, v in t.items())) for pn, t in tbl.per_phase_table.items() if t}
+    return ("ok", dict(sorted((k, repr(v)) for k, v in tbl.global_table.items())), per)
+
+
+def dag_order_failure(phases_desc):
+    n = len(phases_desc)
+    base = infer_via_dag(phases_desc, list(range(n)))
+    for order in itertools.permutations(range(n)):
+        other = infer_via_dag(phases_desc, list(order))
+        if base[0] == "ok" and other[0] == "ok" and base != other:
+            return "infer_kinds: table differs with the order of the phases dict %s: %r vs %r" % (list(order), base[1:], other[1:])
+        if base[0] != other[0]:
+            return "infer_kinds %s for one order of the phases dict and %s for %s" % (base, other, list(order))
+    return None
 
 
 def order2_failure(desc_a, desc_b):
@@ -297,6 +328,17 @@ def bounded(payload):
                 failures.append({"oracle": "order-independence(chain)",
                                  "input": {"kind": "order2", "phases_a": [stmts], "phases_b": [other]}, "detail": d})
     distinct.add(("chains", nchain))
+    # infer_kinds on DAGs with 2-3 phases whose local variables have different kinds, phases dict filled in every order
+    ndag = 0
+    for desc in ([[["call", "v0", "arr"], ["copy", "v1", "v0"]], [["call", "v0", "real"], ["copy", "v1", "v0"]]],
+                 [[["call", "v0", "cplx"]], [["call", "v0", "uta"], ["copy", "v2", "v0"]], [["call", "v0", "int"]]],
+                 [[["call", "<state>s", "real"], ["call", "v3", "carr"]], [["call", "v3", "real"], ["sum", "v1", "v3", "<state>s"]]]):
+        evals += 1
+        ndag += 1
+        d = dag_order_failure(desc)
+        if d:
+            failures.append({"oracle": "order-independence(phases dict)", "input": {"kind": "dagorder", "phases": desc}, "detail": d})
+    distinct.add(("dagorder", ndag))
     for e in payload.get("known", []):
         r = replay(e["native"])
         if r.get("fails"):
